@@ -38,6 +38,21 @@ TEXT = {
  "C04": ("C04_end_exactly_once proves for every script (incl. removes inside callbacks and removes racing the driver between the adapter's Disconnected and the deregister) that per connection id (#remove()->true) + (#Disconnected) <= 1 and that afterwards the registry has no entry, so send/is_ready/remove answer ResourceNotFound/None/false without reaching the adapter (C04_after_end). Mock-adapter correspondence as C03, plus real-thread races: 8 threads removing one id, and remove() racing the processor's deregister (both outcomes occur and are checked).",
          "Trusted: as C03; that dropping the last Arc closes the socket is Rust ownership (C18).",
          "Coq invariant proof + scripted correspondence + forced real-thread races", "DESIGN.md 4 (C04)"),
+ "C01": ("C01_framed_send_wire: for every partial-write/WouldBlock schedule a FramedTcp send answering Sent has put exactly one canonical frame on the wire; C01_framed_end_to_end: for every message list and EVERY segmentation of the wire into socket reads the Message payloads are exactly that list (composition with the decoder theorem of C02); C01_ws_drains_library_buffer: the WebSocket receive loop reports WaitNextEvent only when the library has no complete message left, buffered or in the socket, and everything that arrived was delivered in order. The loop shapes the model assumes are re-read from the adapter sources every run (C01_gen_obligation). Real sockets: message-io<->message-io both directions, raw TCP writer with every single prefix split and write-boundary pairs, raw reader checking the exact wire bytes for sizes 0..300 and the prefix boundaries, stock tungstenite client/server with back-to-back bursts followed by silence, fragmented WS messages.",
+         "Trusted: Coq kernel; kernel TCP and tungstenite as oracles; translator for loop shapes; harness. Bounded-time delivery is measured.",
+         "Coq proof (loop models over oracle sockets, composed with the decoder theorem) + per-run shape obligations + real-socket scenarios with independent peers", "DESIGN.md 4 (C01)"),
+ "C10": ("C10_concurrent_framed_sends: with sends serialised per connection (send lock / state mutex re-read from the sources, C10_gen_obligation) the wire is a concatenation of whole frames in some interleaving of the senders' orders; for ANY interleaving of ANY number of senders and ANY segmentation into reads the receiver gets exactly that interleaving — every message whole, exactly once, each sender's in its order. Real threads: 4-6 threads on one FramedTcp / Ws / Udp endpoint, sizes from 8 B to 700 KiB (partial writes, WouldBlock), self-describing checksummed payloads, both directions busy.",
+         "Trusted: Coq kernel; Mutex; kernel atomicity of one UDP send; harness.",
+         "Coq proof (serialised sends -> whole frames -> decoder theorem) + per-run lock obligations + multi-thread real-socket runs", "DESIGN.md 4 (C10)"),
+ "C11": ("C11_send_wire / C11_send_never_invents: for every partial-write schedule the wire receives a prefix of the buffer and exactly the buffer when the status is Sent (an empty buffer is Sent with nothing written); C11_receive_chunks: the Message chunks are the successive read results, each of 1..=65535 bytes, WaitNextEvent only after WouldBlock. Real sockets: size lists around 65535, multi-MiB buffers against a slow raw reader, raw writer, both directions.",
+         "Trusted: Coq kernel; kernel TCP; read contract as hypothesis; harness.",
+         "Coq proof over oracle sockets + per-run shape obligations + real-socket scenarios", "DESIGN.md 4 (C11)"),
+ "C12": ("C12_no_truncation: every payload up to max_message_size(Udp) fits the smallest receive buffer declared in udp.rs (regenerated); C12_attribution / C12_reply_reaches_source: a datagram handed over by a listener's accept is reported once with the listener's id and the source address, and sending to that endpoint (or a from_listener endpoint) calls send_to(source) on that listener. Real sockets: size sweep to 65507 (every size in the thorough tier), three raw senders per listener, replies through reported and from_listener endpoints, connected sockets both ways.",
+         "Trusted: Coq kernel; kernel UDP; translator; harness.",
+         "Coq proof + per-run obligations on regenerated buffer sizes + real-socket sweep", "DESIGN.md 4 (C12)"),
+ "C13": ("C13_limits_consistent: for every transport and every size the adapter path accepts a payload iff it is at most Transport::max_message_size(), from the size pre-checks of udp.rs/ws.rs, the limits the websocket library is configured with on BOTH handshake paths and the receive buffers — all re-read from the sources and the locked tungstenite source each run (C13_gen_obligation); C13_send_status_table: the exact decision table of Driver::send (Sent only through the adapter; ResourceNotAvailable iff registered and not ready, adapter not called; ResourceNotFound iff not registered, adapter not called). Real sockets: limit-1/limit/limit+1 per transport, pending/ready/removed/fabricated endpoints on all four transports; mock-adapter scripts for the table.",
+         "Trusted: Coq kernel; translator; kernel EMSGSIZE threshold; tungstenite limits read from its source.",
+         "Coq proof + per-run obligations on regenerated limits + real-socket boundary scenarios + scripted correspondence", "DESIGN.md 4 (C13)"),
 }
 
 def chk(pid):
